@@ -20,13 +20,42 @@ import (
 func init() { engines["pure"] = enginePure }
 
 type argSet struct {
-	c       *cellCase // reuse the C04 workload shape (cells, sets, blocks)
-	width   int
-	memoOut []float64 // [N][nOut][T] flattened, from the first full execution
-	memoFin []float64
-	have    bool
-	first   *liveBuffers // arrays of the first execution (never scribbled): re-used as they are
+	c          *cellCase // reuse the C04 workload shape (cells, sets, blocks)
+	width      int
+	memoOut    []float64 // [N][nOut][T] flattened, from the first full execution
+	memoFin    []float64
+	have       bool
+	first      *liveBuffers // arrays of the first execution (never scribbled): re-used as they are
+	siblingOf  int          // index of the argument set this one is a sibling of (valid if isSibling)
+	hasSibling bool
+	sharedPar  *sharedParams // parameter matrix object shared with the sibling(s), edited in place
 }
+
+// sharedParams: one parameter matrix OBJECT (a column range of a wider matrix, so that table
+// parameters are non-contiguous views) whose contents the caller replaces in place between runs.
+type sharedParams struct {
+	view data.ND2Float64
+	rows int
+	sets int
+}
+
+func newSharedParams(rows, sets int) *sharedParams {
+	wide := data.NewArray2DFloat64(rows, sets+2)
+	v := wide.Slice([]int{0, 1}, []int{rows, sets}, nil).(data.ND2Float64)
+	return &sharedParams{view: v, rows: rows, sets: sets}
+}
+
+func (sp *sharedParams) load(cols [][]float64) {
+	for j, c := range cols {
+		for i := 0; i < sp.rows; i++ {
+			sp.view.Set2(i, j, c[i])
+		}
+	}
+}
+
+// objDims remembers the table dimensions a model object was initialised with (per run).
+var objDims = map[sim.TimeSteppingModel]string{}
+var skipReinit bool
 
 type liveBuffers struct {
 	in  data.ND3Float64
@@ -63,7 +92,7 @@ func scribble(b *liveBuffers, v float64) {
 
 // execArgs runs argument set a on obj (nil = fresh object); variant 0 full, 1 truncated at cut,
 // 2 tail after cut replaced.  Returns outputs [N*nOut*T'] and final states.
-func execArgs(a *argSet, obj sim.TimeSteppingModel, variant, cut int, tailSeed float64, reuse bool) (sim.TimeSteppingModel, *liveBuffers, []float64, []float64, int) {
+func execArgs(a *argSet, obj sim.TimeSteppingModel, variant, cut int, tailSeed float64, reuse bool, shared bool) (sim.TimeSteppingModel, *liveBuffers, []float64, []float64, int) {
 	c := a.c
 	nIn, nOut := len(c.desc.Inputs), len(c.desc.Outputs)
 	T := c.T
@@ -84,7 +113,12 @@ func execArgs(a *argSet, obj sim.TimeSteppingModel, variant, cut int, tailSeed f
 		}
 	}
 	bufs := &liveBuffers{}
-	if reuse && a.first != nil && variant == 0 {
+	if shared && a.sharedPar != nil {
+		// the caller edits its parameter matrix in place and applies the same object again
+		a.sharedPar.load(c.cols)
+		bufs.par = a.sharedPar.view
+		bufs.in = mk3(c.CIn, c.I, nIn, T, iv)
+	} else if reuse && a.first != nil && variant == 0 {
 		// the caller passes the very same (unmodified by the caller) input and parameter
 		// arrays again
 		bufs.par, bufs.in = a.first.par, a.first.in
@@ -103,7 +137,14 @@ func execArgs(a *argSet, obj sim.TimeSteppingModel, variant, cut int, tailSeed f
 	}
 	dims := obj.FindDimensions(bufs.par)
 	if len(dims) > 0 {
-		obj.InitialiseDimensions(dims)
+		// like ow-sim, which initialises the dimensions of a model object once and then applies
+		// parameters before every run: skip the re-initialisation when the object already has
+		// these dimensions
+		key := fmt.Sprint(dims)
+		if objDims[obj] != key || !skipReinit {
+			obj.InitialiseDimensions(dims)
+		}
+		objDims[obj] = key
 	}
 	obj.ApplyParameters(bufs.par)
 	obj.Run(bufs.in, bufs.st, bufs.out)
@@ -129,6 +170,27 @@ func enginePure(rc *RunCtx) *Outcome {
 		}
 		sets = append(sets, &argSet{c: c, width: len(c.stateRows[0])})
 		modelsUsed = append(modelsUsed, c.Model)
+		if w.Bool(45) && len(c.stateRows[0]) == len(initialStateRow(c.Model, c.desc, c.cols[0], c.MaxDim)) {
+			// a sibling: same model and array shapes, other values - used alternately on the same
+			// objects, and through one parameter array object that the caller edits in place
+			sb := drawSibling(w, c)
+			if len(sb.stateRows[0]) == len(c.stateRows[0]) {
+				sets = append(sets, &argSet{c: sb, width: len(sb.stateRows[0]), siblingOf: len(sets) - 1})
+				sets[len(sets)-2].hasSibling = true
+				modelsUsed = append(modelsUsed, sb.Model+"(sibling)")
+			}
+		}
+	}
+	for i, a := range sets {
+		if a.hasSibling {
+			sp := newSharedParams(len(a.c.cols[0]), a.c.P)
+			a.sharedPar = sp
+			for _, b := range sets[i+1:] {
+				if b.siblingOf == i && b.c.Model == a.c.Model && len(b.c.cols[0]) == sp.rows && b.c.P == sp.sets {
+					b.sharedPar = sp
+				}
+			}
+		}
 	}
 	nOps := 8 + w.Choose(25)
 	if rc.Tier == "thorough" {
@@ -182,10 +244,12 @@ func enginePure(rc *RunCtx) *Outcome {
 		return true
 	}
 
+	objDims = map[sim.TimeSteppingModel]string{}
+	skipReinit = w.Bool(70)
 	s := simrt.Run(rc.T, simrt.Config{DeepPct: 20}, rc.S, func() {
 		// pristine memo: every argument set once, on a fresh object
 		for ai, a := range sets {
-			_, b, out, fin, T := execArgs(a, nil, 0, 0, 0, false)
+			_, b, out, fin, T := execArgs(a, nil, 0, 0, 0, false, false)
 			check(a, ai, out, fin, 0, 0, T, "first execution")
 			a.first = b
 		}
@@ -223,13 +287,13 @@ func enginePure(rc *RunCtx) *Outcome {
 				var outA, finA, outB, finB []float64
 				var TA, TB int
 				simrt.Go("pure:concurrent-a", func() {
-					_, _, outA, finA, TA = execArgs(a, obj, 0, 0, 0, false)
+					_, _, outA, finA, TA = execArgs(a, obj, 0, 0, 0, false, false)
 					simrt.Yield("pure:a<")
 					done <- 1
 					simrt.Yield("pure:a>")
 				})
 				simrt.Go("pure:concurrent-b", func() {
-					_, _, outB, finB, TB = execArgs(b, nil, 0, 0, 0, false)
+					_, _, outB, finB, TB = execArgs(b, nil, 0, 0, 0, false, false)
 					simrt.Yield("pure:b<")
 					done <- 2
 					simrt.Yield("pure:b>")
@@ -252,11 +316,17 @@ func enginePure(rc *RunCtx) *Outcome {
 				how += ", same input and parameter arrays as the first call"
 				o.probe("caller_reuses_input_and_parameter_arrays")
 			}
-			obj2, bufs, out, fin, T := execArgs(a, obj, variant, cut, float64(w.Choose(5)), reuse)
+			shared := false
+			if !reuse && a.sharedPar != nil && w.Bool(60) {
+				shared = true
+				how += ", parameters edited in place in the parameter matrix object shared with the sibling"
+				o.probe("parameter_matrix_object_edited_in_place_between_runs")
+			}
+			obj2, bufs, out, fin, T := execArgs(a, obj, variant, cut, float64(w.Choose(5)), reuse, shared)
 			if obj == nil {
 				objects[a.c.Model] = append(objects[a.c.Model], obj2)
 			}
-			if !reuse {
+			if !reuse && !shared {
 				prev = bufs
 			}
 			if variant == 1 {
